@@ -24,7 +24,8 @@ type corpusCase struct {
 	Note     string `json:"note"`
 	Schema   string `json:"schema"`
 	InputHex string `json:"input_hex"`
-	Defer    bool   `json:"defer"` // a known hang: run at the end of the run (its worker cannot be stopped)
+	Defer    bool   `json:"defer"`   // a known hang: run at the end of the run (its worker cannot be stopped)
+	Isolate  bool   `json:"isolate"` // a known fatal runtime error: run in a process of its own
 }
 
 type failReport struct {
@@ -55,6 +56,8 @@ func whatOf(o *Outcome) string {
 		return fmt.Sprintf("hang: %s", o.Panic)
 	case "no-terminal":
 		return "finite input did not reach a terminal result: " + o.Panic
+	case "fatal":
+		return "unrecoverable runtime failure (the process died, recover() cannot catch it): " + o.Panic
 	}
 	return o.Fail + ": " + o.Panic
 }
@@ -116,7 +119,12 @@ func (x *runner) runCorpus(deferred bool) {
 		if cc.Expect == "finding" {
 			dl = 2 * time.Second // a known hang need not cost the full watchdog on every run
 		}
-		o := Exec(c, nil, dl)
+		var o *Outcome
+		if cc.Isolate {
+			o = ExecIsolated(c)
+		} else {
+			o = Exec(c, nil, dl)
+		}
 		x.sum.Count("corpus:"+cc.Name, true)
 		switch {
 		case o.Fail == "":
@@ -163,6 +171,14 @@ func (x *runner) runReplay() bool {
 
 func main() {
 	o := vh.ParseOpts()
+	if f := os.Getenv("C03_ONECASE"); f != "" {
+		runOneCase(f)
+	}
+	if os.Getenv("C03_CHILD") == "" && os.Getenv("C03_EXPLORE") == "" {
+		supervise(o)
+		return
+	}
+	inflightFile = inflightPath(o)
 	r := vh.NewRng(o.Seed)
 	sum := vh.NewSummary("C03", o,
 		"(schema, input) pairs run through NewSchema / NewTransform / Read loop under recover() and a watchdog; non-trivial = a MUTATED schema that NewSchema accepts and whose Read loop runs on a damaged (not valid) input, or a schema rejected by the in-code validators (not the JSON-schema layer); distinct by (schema text, input bytes). Plus correspondence cases of the transcribed pure functions (all counted non-trivial when the mechanism is exercised)")
